@@ -218,7 +218,21 @@ func genFeature(r *rng, L int, depth int) gts.Feature {
 	if key == "source" && r.intn(2) == 0 {
 		return gts.Feature{Key: key, Loc: gts.Range(0, L), Props: genProps(r)}
 	}
-	return gts.Feature{Key: key, Loc: genLoc(r, depth, L, 3, false), Props: genProps(r)}
+	// one feature in three may hold Ambiguous (`n.m`) spans — alone at depth 0, inside join / order /
+	// complement deeper down (audit S3 tail: before, no sequence-level oracle ever saw one); genContig
+	// then draws an Ambiguous leaf with probability 1/10 per contiguous leaf, and a second draw makes the
+	// top-level location itself a bare (or complemented) ambiguous span now and then
+	amb := r.intn(3) == 0
+	if amb && r.intn(4) == 0 {
+		s := r.intn(L)
+		e := r.rangeInt(s+1, L)
+		var l gts.Location = gts.Ambiguous{Start: s, End: e}
+		if r.intn(3) == 0 {
+			l = gts.Complemented{Location: l}
+		}
+		return gts.Feature{Key: key, Loc: l, Props: genProps(r)}
+	}
+	return gts.Feature{Key: key, Loc: genLoc(r, depth, L, 3, amb), Props: genProps(r)}
 }
 
 var residueAlphabet = []byte("acgtnACGTryk")
